@@ -65,11 +65,14 @@ def fold_accumulators(fx, res):
             st = it.out_states.get(b)
             if st is None:
                 continue
-            init_prov = it.read_op(st, t["args"][1], (b, "t"))[3] or frozenset()
+            rd_init = it.read_op(st, t["args"][1], (b, "t"))
+            init_prov = rd_init[3] or frozenset()
             clo_prov = it.read_op(st, t["args"][2], (b, "t"))[3] or frozenset()
+            recv_ty = (op_place(t["args"][0]) or {}).get("ty") or ""
+            extra = (recv_ty, (rd_init[1], rd_init[2]))
             for r in clo_prov:
                 if r.startswith("CALL:") and "{closure" in r:
-                    out[r[5:]] = ("P2", init_prov)
+                    out[r[5:]] = ("P2", init_prov) + extra
             # a closure that captures nothing is a constant: identify it by its type `{closure@file:line:..}`
             a2 = t["args"][2]
             cty = (a2.get("const") or {}).get("ty") or (op_place(a2) or {}).get("ty") or ""
@@ -77,7 +80,7 @@ def fold_accumulators(fx, res):
             if m_:
                 cands = [k for k in fx.fns if k.startswith(fid + "::{closure") and (fx.fns[k].get("span") or {}).get("file") == m_.group(1) and (fx.fns[k].get("span") or {}).get("line") == int(m_.group(2))]
                 if len(cands) == 1 and cands[0] not in out:
-                    out[cands[0]] = ("P2", init_prov)
+                    out[cands[0]] = ("P2", init_prov) + extra
     return out
 
 
@@ -112,6 +115,50 @@ def operand_field(fx, fid, ob, which):
             pl = rv["place"]
         else:
             return None
+    return None
+
+
+def sum64_fold(fx, fid, ob, fold_acc):
+    """D-SUM64 for `iter.fold(init, |acc, x| acc + f(x))`: the closure's only addition advances a 64-bit accumulator by a 32-bit
+    value, its result is the closure's result, the fold runs over a slice iterator (fewer than 2^32 elements under A-MEM) or a
+    Range<u32>, and the initial value is below 2^32: the sum stays below 2^64"""
+    from mir import op_const
+    info = (fold_acc or {}).get(fid)
+    body = body_of(fx.fns[fid])
+    b = ob.get("block")
+    if info is None or len(info) < 4 or body is None or b is None or body.argc < 3:
+        return None
+    recv_ty, (ilo, ihi) = info[2], info[3]
+    if not (recv_ty.startswith("core::slice::iter::Iter<") or "Range<u32>" in recv_ty or "RangeInclusive<u32>" in recv_ty):
+        return None
+    if ilo is None or ilo < 0 or ihi > 0xFFFFFFFF:
+        return None
+    t = body.term(b)
+    msg = t.get("msg") or {}
+    if t["k"] != "assert" or msg.get("k") != "Overflow" or msg.get("op") != "Add":
+        return None
+    d = ob["detail"]
+    for acc_op, other_d in ((msg["a"], d["b"]), (msg["b"], d["a"])):
+        pl = op_place(acc_op)
+        iv = other_d.get("iv") or [None, None]
+        if pl is None or pl["p"] or iv[0] is None or iv[0] < 0 or iv[1] > 0xFFFFFFFF:
+            continue
+        l = pl["l"]
+        for _ in range(3):
+            sd = body.single_def(l)
+            if sd is not None and sd[2] == "assign" and sd[3]["k"] == "use" and op_place(sd[3]["a"]) is not None and not op_place(sd[3]["a"])["p"]:
+                l = op_place(sd[3]["a"])["l"]
+            else:
+                break
+        if l != 2 or body.locals[2]["ty"] not in ("u64", "usize"):
+            continue
+        # the closure returns this sum and contains no other addition to the accumulator
+        adds = [s_ for bb in range(body.n) for s_ in body.stmts(bb) if s_["k"] == "assign" and s_["rv"]["k"] in ("bin", "checked") and s_["rv"].get("op") in ("Add", "AddWithOverflow")]
+        rets = [s_ for bb in range(body.n) for s_ in body.stmts(bb) if s_["k"] == "assign" and s_["place"]["l"] == 0 and not s_["place"]["p"]]
+        if len(adds) == 1 and len(rets) == 1 and rets[0]["rv"]["k"] == "use":
+            src = op_place(rets[0]["rv"]["a"])
+            if src is not None and src["l"] == adds[0]["place"]["l"]:
+                return "fold accumulator: starts below 2^32 and gains one 32-bit value per element of %s: below 2^64" % recv_ty.split("::")[-1][:40]
     return None
 
 
@@ -477,7 +524,7 @@ class Engine:
                 return
         # ---- D-SUM64
         if ob["kind"] == "assert" and ob["what"] == "Overflow(Add)":
-            why = sum64(self.fx, fid, ob)
+            why = sum64(self.fx, fid, ob) or sum64_fold(self.fx, fid, ob, self.fold_acc)
             if why:
                 chk.ok(rule, key, "D-SUM64: " + why, site)
                 return
